@@ -251,6 +251,7 @@ impl Builder {
         client.set_fetch_max_wait_time(self.fetch_max_wait_time)?;
         client.set_fetch_min_bytes(self.fetch_min_bytes);
         client.set_fetch_max_bytes_per_partition(self.fetch_max_bytes_per_partition);
+        client.set_fetch_crc_validation(self.fetch_crc_validation);
         client.set_group_offset_storage(self.group_offset_storage);
         client.set_connection_idle_timeout(self.conn_idle_timeout);
         if let Some(client_id) = self.client_id {
